@@ -4,7 +4,9 @@
 package bfe_spdy
 
 import (
+	"fmt"
 	"net"
+	"sync"
 	"time"
 
 	http "github.com/bfenetworks/bfe/bfe_http"
@@ -39,4 +41,16 @@ func VerifC40FlowTake(s, c, n int32) (int32, int32, int32) {
 	av := f.available()
 	f.take(n)
 	return f.n, cf.n, av
+}
+
+// VerifC40OnPanic installs f as observer of panics recovered by serverConn.serve (notePanic): the serve loop
+// swallows them and just closes the connection, so the harness could not tell a crash from an orderly close.
+func VerifC40OnPanic(f func(msg string)) {
+	if testHookOnPanicMu == nil {
+		testHookOnPanicMu = new(sync.Mutex)
+	}
+	testHookOnPanic = func(sc *serverConn, v interface{}) bool {
+		f(fmt.Sprint(v))
+		return false
+	}
 }
